@@ -77,7 +77,8 @@ def kernel_rule(nf, s1, c1, s=S, c=C, x=X):
     only_c = op_nodes(c1) - op_nodes(s1)
     fs = err_form(s1, only_c, {})
     fc = err_form(c1, only_c, {})
-    if not nf.is_zero(nf.of_term(fc.real)):
+    real_c = nf.of_term(fc.real)
+    if not (nf.is_zero(real_c) or nf.equal(real_c, nf.of_term(c))):
         return False, 'the compensation has real content %s (it must carry only rounding residue)' % T.show(c1)[:100]
     if not fc.eps:
         return False, 'no rounding residue is captured: the step is uncompensated (c\' = %s)' % T.show(c1)[:60]
@@ -123,23 +124,31 @@ def run_cfg(chk, facts, cfg):
         try:
             ps = summ(add_t, ['self', 'x'], [by_ref(sm.kahan_value(S, [C])), None])
             chk.saw(facts, add_t, paths=len(ps))
-            if len(ps) != 1 or not ps[0].is_ret() or ps[0].guard:
-                chk.ob('%s:kernel%s' % (PID, sfx), 'E8', 'kernel', None, 'undecided: %d paths / data-dependent branch in the kernel' % len(ps), where)
+            if not ps or any(not q.is_ret() for q in ps):
+                chk.ob('%s:kernel%s' % (PID, sfx), 'E8', 'kernel', None, 'undecided: %d paths, not all returning' % len(ps), where)
             else:
-                post = ps[0].effects['self']
-                s1, cs = fields(post)
-                post_t = post
-                good, detail = kernel_rule(nf, s1, cs[0])
+                good, detail = True, ''
+                for q in ps:
+                    post = q.effects['self']
+                    s1, cs = fields(post)
+                    g1, d1 = kernel_rule(nf, s1, cs[0])
+                    good = good and g1
+                    detail = d1 if (not g1 or not detail) else detail
+                post_t = [q.effects['self'] for q in ps]
                 chk.ob('%s:kernel%s' % (PID, sfx), 'E8 error-algebra', 'the += step is a compensated recurrence: the accumulation\'s rounding error cancels in s -/+ c', good, detail, where,
                        sample={'s_next': T.show(s1), 'c_next': T.show(cs[0]), 'verdict': detail})
                 cnt['kernel'] += 1
         except (Unsupported, NotReal) as e:
             chk.ob('%s:kernel%s' % (PID, sfx), 'E8 error-algebra', 'kernel', None, 'undecided: %s' % e, where)
 
-    def K(state, x):
-        """the kernel step as a substitution instance of the += T summary"""
-        s0, c0 = fields(state)
-        return T.subst(post_t, {S: s0, C: c0[0], X: x})
+    def K(states, x):
+        """the kernel step(s) as substitution instances of the += T summary (one per kernel path)"""
+        out = []
+        for state in states:
+            s0, c0 = fields(state)
+            for pt in post_t:
+                out.append(T.subst(pt, {S: s0, C: c0[0], X: x}))
+        return out
 
     # ---- D3 merge
     add_s = facts.trait_method('core::ops::AddAssign', kp, 'add_assign', trait_args=lambda imp: [t.get('adt') for t in imp.get('trait_args', [])] == [kp])
@@ -150,10 +159,11 @@ def run_cfg(chk, facts, cfg):
         try:
             ps = summ(add_s, ['self', 'rhs'], [by_ref(sm.kahan_value(S, [C])), sm.kahan_value(BS, [BC])])
             chk.saw(facts, add_s, paths=len(ps))
-            st0 = sm.kahan_value(S, [C])
+            st0 = [sm.kahan_value(S, [C])]
             cands = {'K(K(st, rhs.sum), rhs.comp)': K(K(st0, BS), BC), 'K(K(st, rhs.sum), -rhs.comp)': K(K(st0, BS), T.op('neg', BC)), 'K(st, rhs.sum)': K(st0, BS)}
-            post = ps[0].effects['self'] if len(ps) == 1 and ps[0].is_ret() else None
-            hit = [k for k, v in cands.items() if v == post]
+            posts = [q.effects['self'] for q in ps if q.is_ret()]
+            post = posts[0] if posts else None
+            hit = [k for k, v in cands.items() if posts and len(posts) == len(ps) and all(pp in v for pp in posts)]
             chk.ob('%s:merge%s' % (PID, sfx), 'E3 composition', 'register += register feeds rhs.sum (and rhs.compensation, if used) through the same kernel, keeping self.compensation live',
                    bool(hit), ('matches ' + hit[0]) if hit else 'merge is %s' % (T.show(post)[:200] if post else 'not straight-line'), where, sample={'merge': hit[0] if hit else None})
             cnt['kernel'] += 2 if hit and 'comp)' in hit[0] else (1 if hit else 0)
